@@ -8,11 +8,13 @@ from ..spec import P, sha256
 
 EXPLANATION = """
 [REGION] calculate_mnemonic_phrase over every entropy length 0..40 bytes: exactly 16/20/24/28/32 are encoded, all others
-refused; to_entropy over every word count 0..30: exactly 12/15/18/21/24 are decoded. [TERM, per valid length] encoder:
-checksum = first ENT/32 bits of SHA-256(entropy), appended below the entropy, cut into (ENT+CS)/11 groups of 11 bits, most
-significant group first, mapped through the word list and joined by single spaces. Decoder: value = fold over the reversed
-words of index << 11*i through a RAISING list lookup; entropy = value >> CS as ENT/8 bytes; provided checksum = low CS bits;
-the return is dominated by `provided == SHA-256(entropy)[0] >> (8 - CS)`; widths agree pairwise (ENT/32 = words/3).
+refused; to_entropy over every word count 0..30: exactly 12/15/18/21/24 are decoded. [BIT-LEVEL, per valid length, entropy an arbitrary string of exactly that length] encoder:
+word k is the word-list entry whose index is bits 11(n-1-k) .. 11(n-k)-1 of entropy || first ENT/32 bits of SHA-256(entropy),
+joined by single spaces. Decoder: every word goes through a RAISING lookup in the word list (list.index, or a subscript of its
+inverse map however that map is built); entropy = the 11-bit indices most significant first without the low CS bits, as ENT/8
+bytes; the return is dominated by a comparison of those low CS bits with the top CS bits of SHA-256(entropy)[0]. Both are
+compared bit by bit (sa/bitvec.py), so integer accumulation, divmod peeling and '0'/'1' strings are one program; widths agree
+pairwise (ENT/32 = words/3).
 [TERM] to_seed = PBKDF2-HMAC-SHA512(NFKD(mnemonic).utf8, NFKD('mnemonic' + passphrase).utf8, 2048 iterations, 64 bytes).
 [TABLE] english.txt: 2048 unique, sorted, lower-case ASCII words with unique 4-letter prefixes, first 'abandon', last 'zoo';
 load_wordlist reads that file, one stripped word per line.
